@@ -480,6 +480,11 @@ func (e *Engine) verifyFunction(fn *ssa.Function, c *Contract) (err error) {
 	if fn.Blocks == nil {
 		return fmt.Errorf("%s: no body in this build configuration", e.curFunc)
 	}
+	if c.Mode == "bv" {
+		e.variant = ""
+		e.verifyBV(fn, c)
+		return nil
+	}
 	plans := e.aliasPlans(fn, c)
 	cases := e.splitCases(c)
 	e.anyReturn = false
